@@ -8,6 +8,16 @@ ALL = [f'C{i:02d}' for i in range(1, 21)]
 
 # id -> (level text, level note, technique, design ref)
 CHECKS = {
+    'C11': (
+        'Complete enumeration of property skeletons: every scope kind x pattern kind x disjunction width 1..3 (quick) / 1..4 (thorough) in each event position, x decorations (predicates, aliases bound on all / some alternatives and referenced later) x time bound x metadata x construction route (parser, API with both nestings); the real canonical_form output is compared with an independently computed activator-major product, outputs are rebuilt through the constructors, metadata identity is checked and canonical_form is re-applied to every output (BFS depth 2).',
+        'lift() reads raw attrs fields; the expected product is computed from the documented split positions hard-coded in the harness.',
+        'exhaustive skeleton enumeration + explicit-state depth-2 re-application against an independent product specification',
+    ),
+    'C12': (
+        'Bounded model checking of trace semantics: for every property of a family with non-disjunctive activators (all scope and pattern kinds, disjunctions at split and non-split positions, predicates, alias bindings, time bounds) ALL timed traces up to a length bound (quick 3, thorough 5, subject to a stated per-property budget) are enumerated; the property and the conjunction of its real canonical_form outputs are interpreted by a reference trace semantics under both re-activation readings. The oracle is itself checked to refute the non-preserving splittings.',
+        'Reference trace semantics (hplmc/ref/trace.py) is the trusted oracle; docs/semantics.md is TBD so two re-activation readings are taken and a disagreement counts only under both.',
+        'exhaustive bounded trace enumeration (explicit-state) against a reference trace semantics',
+    ),
     'C09': (
         'Bounded-exhaustive exploration of the real split_and(): every boolean term of a propositional + quantifier fragment up to the node bound (quick 6; thorough 6 with quantifiers, 7 without), as expression and as predicate, with the conjunction of the parts evaluated against the input on complete truth tables including empty quantifier domains, and an independent shape predicate on every part.',
         'Reference evaluator is the trusted oracle; terms outside the fragment (arithmetic inside atoms, wider domains) are not explored.',
